@@ -38,6 +38,12 @@ example : cborEncode [1, 2, 3] = some [0x43, 1, 2, 3] ∧ cborDecode [0x43, 1, 2
 
 /-! ## convertbits and bc32 -/
 
+/-- the bc32 checksum constant (BCR-2020-004) on both sides, over the bech32 generator and character set -/
+theorem spec_constants :
+    Gen.bc32ChkXor = 0x3fffffff ∧ Gen.bc32DecConst = 0x3fffffff ∧
+    Gen.bech32Gen = [0x3b6a57b2, 0x26508e6d, 0x1ea119fa, 0x3d4233dd, 0x2a1462b3] ∧
+    Gen.bech32Alphabet = "qpzry9x8gf2tvdw0s3jn54khce6mua7l" := by decide
+
 /-- 8 → 5 bits with padding, then 5 → 8 bits without padding, is the identity on byte strings -/
 theorem convertbits_roundtrip (data : Bytes) :
     ∃ dd, convertbits (data.map (·.toNat)) 8 5 true = some dd ∧ (∀ d ∈ dd, d < 32) ∧
@@ -136,6 +142,14 @@ theorem multi_y_mismatch (sha256 : Bytes → Bytes) (s0 : Str) (rest : List Str)
     rw [multiLoop_first s0 rest p0 hp0 hx,
       multiLoop_y_mismatch rest 1 (Nat.le_refl _) p0.checksum p0.y [p0.payload] j hj p hp hne]
   · exact multi_out_of_order sha256 (s0 :: rest) 0 (by simp) p0 (by simpa using hp0) (by simpa using hx)
+
+/-- the hypotheses about parsed parts are satisfiable: the two parts of BCURMulti(b"hello").encode(8) -/
+example :
+    parseBcurHelper "ur:bytes/1of2/jtga66vjruluzz2pqv4a085078ymuujhffvmcs3r9lk0l0fmp5cq87zent/g45x2mrv".toList =
+      some ⟨"g45x2mrv".toList, some "jtga66vjruluzz2pqv4a085078ymuujhffvmcs3r9lk0l0fmp5cq87zent".toList, 1, 2⟩ ∧
+    (parseBcurHelper "UR:BYTES/2OF2/JTGA66VJRULUZZ2PQV4A085078YMUUJHFFVMCS3R9LK0L0FMP5CQ87ZENT/DUPCCGRQ ".toList).map (·.x) = some 2 ∧
+    bc32decode "g45x2mrvdupccgrq".toList = some [0x45, 0x68, 0x65, 0x6c, 0x6c, 0x6f] ∧
+    cborDecode [0x45, 0x68, 0x65, 0x6c, 0x6c, 0x6f] = some [0x68, 0x65, 0x6c, 0x6c, 0x6f] := by decide +kernel
 
 /-! ## collision extraction -/
 
